@@ -22,7 +22,7 @@ FUNCTIONS = ["pedal.source.sections._calculate_section_number/separate_into_sect
              "pedal.source.feedbacks.not_enough_sections/syntax_error"]
 BOUNDS = {"quick": {"walk3": "3 parts, each <= 1 char of any unicode; independent/cumulative x 0..3 next_section calls; finish by stop or resolve",
                     "walk3_err": "3 parts from an 8-text menu, error at local line 1..2"},
-          "thorough": {"walk3": "parts <= 2 chars", "walk5": "5 parts (two markers), <= 2/2/1/1/1 chars, 0..4 steps", "walk3_err": "all 8 mode x step partitions"}}
+          "thorough": {"walk3": "parts <= 2 chars", "walk5": "5 parts (two markers), <= 1 char each, 0..4 steps", "walk3_err": "all 8 mode x step partitions"}}
 OUTSIDE = ["TIFA and sandbox locations beyond the concrete file menu of C17.tools_in_sections",
            "custom patterns with partial groups (re.split is then not lossless by Python's own contract)", "re.split itself (C code, stubbed by its contract)",
            "set_source(..., independent=...) argument forwarding"]
